@@ -107,6 +107,8 @@ ENC_QUICK = [
     enc_shape([2], maxb=25), enc_shape([8], [0xFF]), enc_shape([8], [2]),
     enc_shape([8, 8]), enc_shape([8, 16]), enc_shape([8, 15]), enc_shape([8, 17]), enc_shape([4, 4, 16], maxb=80), enc_shape([8, 8], [1, 3]), enc_shape([8, 41]), enc_shape([41, 8]), enc_shape([8, 33]),
     enc_shape([8, 8], minb=64), enc_shape([8, 8], api=2),
+    enc_shape([41, 8], minb=64), enc_shape([41, 8], minb=50), enc_shape([41, 8, 8], minb=64),   # the padded frame of a last segment must not take the next packet
+
     enc_shape([8, 8, 8]), enc_shape([8, 41, 8]), enc_shape([8, 8, 8], [1, 3, 1]), enc_shape([4, 4, 4], [3, 3, 1], maxb=64, minb=20),
     enc_shape([], api=1), enc_shape([], api=2),
 
@@ -195,7 +197,6 @@ def enc_big_jobs():
     # the first 24 payload bytes are decided, not the remaining contents.
     huge = [(enc_shape([65535], maxb=65559), "quick"), (enc_shape([65535], maxb=65558), "quick"), (enc_shape([65535], maxb=65536), "thorough"), (enc_shape([65535], maxb=65537), "thorough"),
             (enc_shape([65535], maxb=65535), "thorough"), (enc_shape([65534], maxb=65558), "thorough"), (enc_shape([65512], maxb=65536), "quick"), (enc_shape([65513], maxb=65536), "thorough"),
-            (enc_shape([8, 65500], maxb=65559), "thorough"), (enc_shape([8, 65535], maxb=65559), "thorough"), (enc_shape([65535, 8], maxb=65559), "thorough"), (enc_shape([40000, 40000], maxb=65559), "thorough"),
             (enc_shape([65535], maxb=32768), "thorough"), (enc_shape([65535], maxb=65559, minb=65559), "thorough"), (enc_shape([100], maxb=65559, minb=65540), "quick"), (enc_shape([70], maxb=65559, minb=65536), "thorough")]
     if os.environ.get("VP_HUGE_SHAPE"):
         huge = [(enc_shape([int(x) for x in os.environ["VP_HUGE_SHAPE"].split(":")[0].split(",")], maxb=int(os.environ["VP_HUGE_SHAPE"].split(":")[1])), "quick")]
@@ -204,7 +205,7 @@ def enc_big_jobs():
         dd = dict(d) if plain else dict(d, HUGE=24)
         jobs.append(Job("enc.cpp", "h_enc_big", defs=dd, cdefs={} if plain else {"VP_MEM_PREFIX": 48}, ll2c_opts=[] if plain else ["--bytewise-wire"], extra=["--z3"], unwind=50, tier=tier, in_max=64, mem_gb=8,
                         sym="timestamps, version, device/stream id, counter start, the first 24 payload bytes of the first packet (one symbolic index compared)",
-                        outside="payload and padding contents beyond the first 48 bytes of each copy (copies are cut to a prefix in this mode; region accessibility is still checked); message header fields other than the declared length"))
+                        outside="batches of two or more packets at this size (Z3 did not finish [8, 65500], [8, 65535], [65535, 8], [40000, 40000] within 1800 s); payload and padding contents beyond the first 48 bytes of each copy (copies are cut to a prefix in this mode; region accessibility is still checked); message header fields other than the declared length"))
     return jobs
 
 
@@ -307,7 +308,7 @@ def c04_hist_jobs():
     typed payload kinds, truncation and padding on a fresh decoder."""
     q5, t5 = c05_shapes(4)
     fam2, fam3 = seq_family(4, 2), seq_family(4, 3)
-    jobs = [j for j in seq_jobs(q5[::2] + fam2[::6], t5 + fam2 + fam3[::4]) if j.entry == "h_seq" and j.variant == SEQ_VARIANT]
+    jobs = [j for j in seq_jobs(q5[::2] + fam2[::6] + seq_agg_family(4, "quick")[::2], t5 + fam2 + fam3[::4] + seq_agg_family(4, "thorough")) if j.entry == "h_seq" and j.variant == SEQ_VARIANT]
     return jobs
 
 
@@ -334,7 +335,7 @@ def c04_jobs():
     return jobs
 
 
-PROPS["C04"] = {"jobs": lambda: c04_jobs() + c04_hist_jobs(), "assumptions": COMMON_ASSUME + [
+PROPS["C04"] = {"jobs": lambda: c04_jobs() + c04_hist_jobs() + _gate_jobs(), "assumptions": COMMON_ASSUME + [
     "declared message lengths, message count, padding/truncation amounts and the version byte are concrete shape parameters",
     "history quantifier: this check covers a fresh decoder; independence from earlier history is C17/C18's step lemma (an unsegmented message only erases its endpoint's entry)",
     "validity oracle is written independently in harness/dec.cpp expectValid; cases the property leaves open (CAN error position without flags, Ethernet tx-port-down/truncated, interface status > 2) are not asserted either way"],
@@ -348,6 +349,8 @@ def seq_shape(frames, pfx, samedev=0):
     for i, fr in enumerate(frames):
         for k, dflt in (("seg", 0), ("ep", 0), ("len", 8), ("trail", 0), ("cnt", i), ("vx", 0), ("tx", 0), ("bad", 0), ("kind", 0)):
             d["%s_%d" % (k.upper(), i)] = fr.get(k, dflt)
+        if fr.get("agg"):
+            d["AGG_%d" % i] = fr["agg"]   # a second message in the same frame (seq.cpp AGG)
     return d
 
 
@@ -377,12 +380,12 @@ def seq_jobs(shapes_quick, shapes_thorough):
             seen.add(key)
             if not jobs:
                 jobs.append(Job("seq.cpp", "h_endpoint_key", defs={"PFX": d["PFX"], "F": 1}, unwind=10, in_max=16, mem_gb=2, sym="both device ids and both stream ids (all 2^48 combinations)", variant="real"))
-            jobs.append(Job("seq.cpp", "h_seq", defs=d, unwind=400, unwindset={("Decoder6decode", None): 3, ("_M_realloc_insert", None): 3, ("_Hashtable", None): 4, ("_M_release", None): 3},
-                            tier=tier, in_max=16 + d["F"] * 64, mem_gb=8, sym=SEQ_SYM, outside=SEQ_OUT, variant=SEQ_VARIANT))
+            jobs.append(Job("seq.cpp", "h_seq", defs=d, unwind=400, unwindset={("Decoder6decode", None): 6, ("_M_realloc_insert", None): 4, ("_Hashtable", None): 4, ("_M_release", None): 3},
+                            tier=tier, in_max=16 + d["F"] * 64 + 8 * sum(1 for k in d if k.startswith("AGG_")), mem_gb=8, sym=SEQ_SYM, outside=SEQ_OUT, variant=SEQ_VARIANT))
             if d["PFX"] == 5 and d["F"] <= 3 and SEQ_VARIANT == "mapmodel":
                 # the same sequence against the real libstdc++ unordered_map (tractable up to 3 frames)
-                jobs.append(Job("seq.cpp", "h_seq", defs=d, unwind=400, unwindset={("Decoder6decode", None): 3, ("_M_realloc_insert", None): 3, ("_Hashtable", None): 4, ("_M_release", None): 3},
-                                tier=tier if d["F"] == 2 else "thorough", in_max=16 + d["F"] * 64, mem_gb=8, sym=SEQ_SYM, outside=SEQ_OUT, variant="real", timeout=None if d["F"] == 2 else 1200))
+                jobs.append(Job("seq.cpp", "h_seq", defs=d, unwind=400, unwindset={("Decoder6decode", None): 6, ("_M_realloc_insert", None): 4, ("_Hashtable", None): 4, ("_M_release", None): 3},
+                                tier=tier if d["F"] == 2 else "thorough", in_max=16 + d["F"] * 64 + 8 * sum(1 for k in d if k.startswith("AGG_")), mem_gb=8, sym=SEQ_SYM, outside=SEQ_OUT, variant="real", timeout=None if d["F"] == 2 else 1200))
     return jobs
 
 
@@ -391,6 +394,8 @@ def c05_shapes(pfx=5):
         seq_shape([fr(1), fr(3)], pfx), seq_shape([fr(1, trail=4), fr(3, trail=3)], pfx), seq_shape([fr(1, ln=16), fr(2, ln=5), fr(3, ln=0)], pfx),
         seq_shape([fr(1, ep=0, cnt=0), fr(1, ep=1, cnt=0), fr(3, ep=0, cnt=1), fr(3, ep=1, cnt=1)], pfx),
         seq_shape([fr(1, ep=0, cnt=0), fr(0, ep=1, cnt=0), fr(3, ep=0, cnt=1)], pfx), seq_shape([fr(1, ep=0, cnt=0), fr(1, ep=1, cnt=0), fr(3, ep=0, cnt=1), fr(3, ep=1, cnt=1)], pfx, samedev=1),
+        # two messages in one frame right after an open message (also against the real hashtable: F = 2)
+        seq_shape([fr(1), fr(0, cnt=1, agg=1)], pfx), seq_shape([fr(1), fr(0, cnt=1, agg=3)], pfx), seq_shape([fr(1), fr(0, cnt=1, agg=2)], pfx),
     ]
     t = [seq_shape([fr(1, ln=a, trail=ta), fr(3, ln=b, trail=tb)], pfx) for a in (0, 1, 8, 24) for b in (0, 1, 8, 24) for ta in (0, 5) for tb in (0, 5)] + \
         [seq_shape([fr(1, ln=a), fr(2, ln=b), fr(2, ln=c), fr(3, ln=e)], pfx) for (a, b, c, e) in ((8, 8, 8, 8), (1, 0, 24, 3), (24, 24, 24, 24))] + \
@@ -399,7 +404,7 @@ def c05_shapes(pfx=5):
     return q, t
 
 
-PROPS["C05"] = {"jobs": lambda: (lambda q, t: seq_jobs(q + seq_family(5, 2), t + seq_family(5, 3)))(*c05_shapes(5)), "assumptions": COMMON_ASSUME + [
+PROPS["C05"] = {"jobs": lambda: (lambda q, t: seq_jobs(q + seq_family(5, 2) + seq_agg_family(5, "quick"), t + seq_family(5, 3) + seq_agg_family(5, "thorough")))(*c05_shapes(5)), "assumptions": COMMON_ASSUME + [
     "sequence shape (frame count, segment kind, endpoint pattern, declared and trailing byte counts, counter offsets) is concrete; ids, start counters and contents are symbolic",
     "schedule quantifier: the shapes are the interleavings of up to 4 frames over 2 endpoints listed in the evidence; the lift to all interleavings uses C18's isolation step (DESIGN.md section 2)",
     "expected deliveries come from an independent reference reassembler in harness/seq.cpp"],
@@ -424,6 +429,9 @@ def c06_shapes():
         seq_shape2([fr(1, cnt=0), fr(3, cnt=1, tx=1), fr(0, cnt=2)], P),                         # corrupt type, then an unsegmented message
         seq_shape2([fr(1, cnt=0, ln=8), fr(1, cnt=2, ln=4), fr(3, cnt=1, ln=8), fr(3, cnt=3, ln=4)], P),  # two messages, frames swapped: no mix of fragments
         seq_shape2([fr(1, cnt=0), fr(1, cnt=0, dup=0), fr(3, cnt=1)], P),                        # duplicated first segment
+        seq_shape2([fr(1, cnt=0), fr(2, cnt=1, tx=1), fr(3, cnt=2)], P),                         # corrupt type in the middle of a 3-segment message: no delivery with a hole
+        seq_shape2([fr(1, cnt=0), fr(2, cnt=1, vx=1), fr(3, cnt=2)], P),                         # corrupt version in the middle
+        seq_shape2([fr(1, cnt=0), fr(2, cnt=1, tx=1), fr(2, cnt=2), fr(3, cnt=3)], P),
     ]
     t = [
         seq_shape2([fr(1, cnt=0), fr(2, cnt=1), fr(3, cnt=2), fr(3, cnt=2, dup=2)], P),
@@ -515,6 +523,33 @@ def seq_family(pfx, extra_len=2, samedev=1):
     return shapes
 
 
+def seq_agg_family(pfx, tier="quick", samedev=1):
+    """Frames that carry two messages (seq.cpp AGG) inside a history: an open message on endpoint 0, then an aggregated frame
+    (unsegmented + {unsegmented, orphan last segment, first segment, invalid message}) on the same or the other endpoint,
+    before or after one frame of the single-message alphabet."""
+    aggs = [(0, 0, {"agg": a}, "next") for a in (1, 2, 3, 4)] + [(0, 1, {"agg": a}, "next") for a in (1, 3)]
+    alpha_q = [(3, 0, {}, "next"), (3, 0, {}, "stale"), (0, 0, {}, "next"), (1, 0, {"ln": 3}, "next"), (3, 1, {}, "next"), (2, 0, {}, "next")]
+    alpha_t = alpha_q + [(0, 0, {"tx": 1}, "next"), (0, 0, {"bad": 1}, "next"), (3, 0, {}, "skip"), (3, 0, {"vx": 1}, "next"), (1, 1, {}, "next"), (0, 1, {}, "next"),
+                         (0, 1, {"bad": 2}, "next"), (0, 1, {"kind": 1}, "next")]
+    alpha = alpha_q if tier == "quick" else alpha_t
+    combos = [(a, x) for a in aggs for x in alpha] + [(x, a) for a in aggs for x in (alpha[:3] if tier == "quick" else alpha)]
+    if tier != "quick":
+        combos += [(a, b) for a in aggs for b in aggs]
+    shapes = []
+    for combo in combos:
+        frames = [fr(1, ep=0, cnt=0)]
+        nxt = {0: 1, 1: 0}
+        for (seg, ep, kw, mode) in combo:
+            c = nxt[ep] if mode == "next" else (1 if mode == "stale" else nxt[ep] + 1)
+            if mode != "stale":
+                nxt[ep] = max(nxt[ep], c) + 1
+            frames.append(fr(seg, ep=ep, cnt=c, **kw))
+        d = seq_shape2(frames, pfx, samedev=samedev)
+        d.update({"START0": 65534, "START1": 65535})
+        shapes.append(d)
+    return shapes
+
+
 def c06_jobs():
     q, t = c06_shapes()
     q2, t2 = [], []
@@ -532,11 +567,11 @@ def c06_jobs():
 PROPS["C06"] = {"jobs": c06_jobs, "assumptions": SEQ_ASSUME + [
     "start counters are concrete representatives in the fault shapes (65534/65535 so that the wrap falls inside the message, 0, 65533); symbolic-start variants run in the thorough tier", "fault quantifier: the listed fault sequences (drop, duplicate, swap, corrupt version/type, at the listed positions) are enumerated as shapes; the oracle is the property itself: every delivered packet equals one sent message (sent messages are computed from the shape), and a clean uninterrupted run is delivered"],
     "level": "bounded symbolic model checking of faulted frame sequences through the real Decoder (fault positions enumerated, contents and counters symbolic)"}
-PROPS["C17"] = {"jobs": lambda: (lambda q, t: seq_jobs(q + seq_family(17, 2), t + seq_family(17, 3)))(*c17_shapes()), "assumptions": SEQ_ASSUME + [
+PROPS["C17"] = {"jobs": lambda: (lambda q, t: seq_jobs(q + seq_family(17, 2) + seq_agg_family(17, "quick"), t + seq_family(17, 3) + seq_agg_family(17, "thorough")))(*c17_shapes()), "assumptions": SEQ_ASSUME + [
     "pending table observed through the ASAM_CMP_VERIF friend hook; the model map's operator[] default-inserts like the real one, so an entry leaked by a lookup is visible",
     "history quantifier: every listed sequence starts from an empty table; together with C18 (other entries untouched) the per-endpoint step covers any history by induction"],
     "level": "bounded symbolic model checking of the pending-table contents after every decode call of a frame sequence"}
-PROPS["C18"] = {"jobs": lambda: (lambda q, t: seq_jobs(q + seq_family(18, 2), t + seq_family(18, 3)))(*c18_shapes()), "assumptions": SEQ_ASSUME + [
+PROPS["C18"] = {"jobs": lambda: (lambda q, t: seq_jobs(q + seq_family(18, 2) + seq_agg_family(18, "quick"), t + seq_family(18, 3) + seq_agg_family(18, "thorough")))(*c18_shapes()), "assumptions": SEQ_ASSUME + [
     "isolation is checked as: the deliveries and pending entry of endpoint A are exactly those of the reference reassembler that sees only A's frames, whatever foreign frame (valid, invalid, orphan, TECMP-routed, undersized) is interleaved"],
     "level": "bounded symbolic model checking of interleaved two-endpoint sequences against a per-endpoint reference"}
 
@@ -735,11 +770,16 @@ def _c02_history():
     to C02 and skipped, the memory checks are not."""
     q5, t5 = c05_shapes(5)
     fam = seq_family(5, 2)
-    jobs = [j for j in seq_jobs(q5 + fam[::16], t5[::3] + fam[1::5]) if j.entry == "h_seq"]
+    jobs = [j for j in seq_jobs(q5 + fam[::16] + seq_agg_family(5, "quick")[::3], t5[::3] + fam[1::5] + seq_agg_family(5, "thorough")[::4]) if j.entry == "h_seq"]
     return jobs
 
 
-PROPS["C02"]["jobs"] = lambda: c02_jobs() + _c02_tecmp() + _c02_history()
+def _gate_jobs():
+    """the CMP message gate with the declared length symbolic (c03.cpp h_packet_gate carries C02/C03/C04-labelled assertions)"""
+    return [j for j in c03_jobs() if j.entry == "h_packet_gate"]
+
+
+PROPS["C02"]["jobs"] = lambda: c02_jobs() + _c02_tecmp() + _c02_history() + _gate_jobs()
 
 
 # ------------------------------------------------------------------ C01 round trip
@@ -765,6 +805,7 @@ def c01_jobs():
     # quick: generic payloads, aggregation and segmentation boundaries, mixed types; CAN
     for lens, types, kw in (
         ([8], None, {}), ([16], None, {"maxb": 40}), ([17], None, {"maxb": 40}), ([33], None, {"maxb": 40}), ([20], None, {"maxb": 40, "minb": 40}),
+        ([32], None, {"maxb": 40}), ([48], None, {"maxb": 40}), ([8, 32], None, {"maxb": 40}),   # payload = k x segment capacity (k = 2, 3): the last segment fills its frame exactly
         ([8, 8], None, {}), ([8, 8], [1, 3], {}), ([8, 41], None, {}), ([41, 8], None, {}), ([8, 8, 8], [1, 3, 1], {}), ([4, 41, 4], None, {}), ([8], [0xFF], {}), ([8], [2], {}),
         ([24], None, {"pkind": 1}), ([24, 24], None, {"pkind": 1, "maxb": 100}), ([16], None, {"pkind": 3}), ([30], None, {"pkind": 8}),
     ):
@@ -904,7 +945,7 @@ def c20_jobs():
     # TECMP capture-module status shorter than its fixed block: must not reach the converter, which builds strings from the block
     jobs += [j for j in tecmp_jobs() if j.entry == "h_tecmp" and j.defs["MT"] == 1 and j.defs["N"] < 64]
     for (a, b, t) in ((8, 5, 3), (1, 0, 0), (16, 16, 8)):
-        jobs.append(Job("c20.cpp", "h_c20_reassembly", defs={"SL0": a, "SL1": b, "STR": t}, unwind=300, unwindset={("Decoder6decode", None): 3, ("_M_realloc_insert", None): 3, ("_Hashtable", None): 4, ("_M_release", None): 3},
+        jobs.append(Job("c20.cpp", "h_c20_reassembly", defs={"SL0": a, "SL1": b, "STR": t}, unwind=300, unwindset={("Decoder6decode", None): 6, ("_M_realloc_insert", None): 4, ("_Hashtable", None): 4, ("_M_release", None): 3},
                         tier="quick" if (a, b) == (8, 5) else "thorough", in_max=2 * (24 + a + b + t) + 8, mem_gb=8, variant="mapmodel",
                         sym="all bytes of both segments incl. trailing bytes, start sequence counter; " + sym2, outside="more than two segments"))
     for (bs, bv) in ((3, 1), (0, 0), (2, 2), (5, 3)):
